@@ -50,9 +50,9 @@ CHECKS = {
     "C05": {
         "level": "model_checking",
         "engine": "E2",
-        "technique": "explicit-state enumeration of operation sequences on the real queue vs reference list",
-        "level_text": "Every sequence of the public queue operations up to depth 4 (quick) / 5 (thorough) over a 24-operation alphabet with present, absent and duplicated ids, plus BFS over canonical states to depth 7/10, and every sequence of scripted handler results (Success/Keep/Fail/Repeat x head/after/tail lists x delay x an operation issued inside the handler) of depth 2/3 through the real Start() worker loop, is executed on the real TaskQueue and compared with a slice reference after every step. Bounded-exhaustive: nothing outside the alphabet/depth is covered.",
-        "level_note": "Trusted: the Go reference list in the harness; task.BaseTask. Handler-result part runs the worker with 20us timing constants in real time (liveness only; no clock oracle). Concurrency of queue operations is covered by C03/C07/C17, not here.",
+        "technique": "explicit-state enumeration of operation sequences on the real queue vs reference list; stateless model checking (pre-emption-bounded) of concurrent queue operations against all sequential orders",
+        "level_text": "Every sequence of the public queue operations up to depth 4 (quick) / 5 (thorough) over a 24-operation alphabet with present, absent and duplicated ids, plus BFS over canonical states to depth 7/10, and every sequence of scripted handler results (Success/Keep/Fail/Repeat x head/after/tail lists x delay x an operation issued inside the handler) of depth 2/3 through the real Start() worker loop, is executed on the real TaskQueue and compared with a slice reference after every step. Part c (controlled scheduler, pre-emption bound 2 quick / 3 thorough): every pair (thorough: and every triple of a 12-operation alphabet) of operations issued from two / three threads on four initial layouts - final content and removals' return values must be those of the operations in some order - and the real worker handling the head with six scripted results while another thread issues one of nine operations: nothing lost, duplicated or invented, initial tasks keep their relative order, no empty slot, right length. Bounded-exhaustive: nothing outside the alphabets/depths/bounds is covered.",
+        "level_note": "Trusted: the Go reference list in the harness; task.BaseTask. Handler-result part runs the worker with 20us timing constants in real time (liveness only; no clock oracle). Part c compiles task_queue.go with its lock operations as scheduling points; the queue inside the assembled operator is covered by C03/C07/C17.",
         "rule": "every sequence of public queue operations (24-op alphabet over present/absent/duplicate ids) up to the stated depth on the real TaskQueue vs a slice reference, plus BFS over canonical states; every sequence of scripted handler results through the real Start() worker loop. Non-trivial = uses an operation other than AddLast / a handler step other than plain Success; distinct = distinct final queue content",
         "assumptions": ["part b uses real time with 20us timing constants for liveness only; the oracle looks at queue content at handler entry and in AfterHandle, never at the clock"],
         "parts": [
@@ -80,7 +80,7 @@ CHECKS = {
         "level": "model_checking",
         "engine": "E2",
         "technique": "exhaustive enumeration of rule graphs x queries x cache histories x map orders on the real chain search vs BFS reachability; exhaustive enumeration of step outcomes through the real conversion handler",
-        "level_text": "Part a: every set of conversion rules up to a size bound (<=2 quick / 3 thorough rules over 48 spellings of versions {v1,v1beta1,v2,v3} with and without the group; <=4/6 over 12 short rules; <=7/9 of an 11-rule chain/fork graph over v1..v7) is loaded into the real ChainStorage; every (from,to) request in every spelling is asked on a fresh storage and on storages whose path cache was filled by the other requests, under three controlled map iteration orders. Oracle: chain returned iff reachable by reference BFS, and every returned chain consists of declared rules, starts at from, ends at to, consecutive steps match. Part b: a two-step chain served by two hooks through the operator's own conversion webhook manager, the real HTTP handler and conversionEventHandler, for all 25 pairs of step outcomes (converted, failedMessage, exit 1, garbage, short object list): the review succeeds iff every step converted, the answer carries the last step's objects, a failed step stops the chain and its message is relayed, the UID is echoed.",
+        "level_text": "Part a: every set of conversion rules up to a size bound (<=2 quick / 3 thorough rules over 48 spellings of versions {v1,v1beta1,v2,v3} with and without the group; <=4/6 over 12 short rules; <=7/9 of an 11-rule chain/fork graph over v1..v7) is loaded into the real ChainStorage; every (from,to) request in every spelling is asked on a fresh storage and on storages whose path cache was filled by the other requests, under three controlled map iteration orders. Oracle: chain returned iff reachable by reference BFS, and every returned chain consists of declared rules, starts at from, ends at to, consecutive steps match. Part b: a two-step chain served by two hooks through the operator's own conversion webhook manager, the real HTTP handler and conversionEventHandler, for all 36 pairs of step outcomes (converted, failedMessage, failedMessage together with a full object list, exit 1, empty response, short object list): the review succeeds iff every step converted, the answer carries the last step's objects, a failed step stops the chain and its message is relayed, the UID is echoed.",
         "level_note": "Trusted: reference BFS and version matching in the harness, the process stand-in in part b. chain.go is compiled with its map ranges routed through vrt.Keys (order chosen by the harness); Go's own random order is thereby replaced by 3 fixed orders. Requests naming a group other than the CRD's are outside the statement and not enumerated. Bounded to the stated universe.",
         "rule": "all subsets of the rule universe up to the size bound x all queries x {fresh, cached-fwd, cached-bwd} x 3 map orders; non-trivial = chain of >= 2 steps; distinct = distinct (rules, request, chain)",
         "parts": [
@@ -95,7 +95,7 @@ CHECKS = {
         "level": "model_checking",
         "engine": "E2",
         "technique": "exhaustive enumeration of add/remove histories on the real schedule manager and of schedule-binding topologies through the real tick-to-task path",
-        "level_text": "Part a: every sequence of Add/Remove of (crontab,id) pairs (2 crontabs x 2 ids, repeats and unknown pairs) up to depth 5 (quick) / 7 (thorough) on the real scheduleManager with the real cron library; after every step the registered set, the number of cron jobs and the messages produced by one injected firing of every job are compared with a reference-count model. Part b: every assignment of up to 3 schedule bindings to 2 hooks (shared/distinct crontabs, queues, groups, allowFailure, includeSnapshotsFrom, named/unnamed) with enable/disable sequences; one tick of each crontab through the real schedule handler must yield exactly one task per enabled binding with that crontab carrying its attributes.",
+        "level_text": "Part a: every sequence of Add/Remove of (crontab,id) pairs (2 crontabs x 2 ids, repeats and unknown pairs) up to depth 5 (quick) / 7 (thorough) on the real scheduleManager with the real cron library; after every step the registered set, the number of cron jobs and the messages produced by one injected firing of every job are compared with a reference-count model. Part b: every assignment of up to 2+2 schedule bindings to 2 hooks (shared/distinct crontabs incl. a column-aligned spelling of one, queues, groups, allowFailure, includeSnapshotsFrom, named/unnamed) with enable/disable sequences; one tick of each crontab through the real schedule handler must yield exactly one task per enabled binding with that crontab carrying its attributes.",
         "level_note": "Trusted: cron parsing/Entries of robfig/cron (never started; a firing is Job.Run()), reference models in the harnesses. Hook configurations are loaded through the real HookManager.Init with the hook process replaced by an in-process stand-in that answers --config.",
         "rule": "all op sequences / all binding topologies in the stated bounds; non-trivial = contains a Remove / more than one binding; distinct = distinct live set / task list",
         "parts": [
@@ -119,7 +119,7 @@ CHECKS = {
         "level": "model_checking",
         "engine": "E2",
         "technique": "exhaustive enumeration of per-object event histories x jq filters x event-type subsets on the real informer handler vs gojq reference",
-        "level_text": "The real resourceInformer (handleWatchEvent, cache, applyFilter, jq.ApplyFilter, checksum) is driven with every sequence of up to 3 Added/Modified/Deleted deliveries over a pool of 4 (quick) / 6 (thorough) object states (equal, differing inside / outside the projection, re-delivery of unchanged objects), for 13 jq filters (none, identity, object-, array-, scalar-, null-valued, multi-output, constructed objects), all 8 subsets of event types and both keepFullObjectsInMemory values. Oracle: which deliveries trigger the hook, and what the snapshot shows after every step (last delivered state, filterResult, full object present or not).",
+        "level_text": "The real resourceInformer (handleWatchEvent, cache, applyFilter, jq.ApplyFilter, checksum) is driven with every sequence of up to 3 Added (plain or as part of an informer's initial list) / Modified / Deleted deliveries over a pool of 5 (quick) / 7 (thorough) object states (equal, differing inside / outside the projection, differing only in metadata.uid, re-delivery of unchanged objects), for 13 jq filters (none, identity, object-, array-, scalar-, null-valued, multi-output, constructed objects), all 8 subsets of event types and both keepFullObjectsInMemory values. Oracle: which deliveries trigger the hook, the filterResult every event carries (jq of the delivered object), and what the snapshot shows after every step (last delivered state, filterResult, full object present or not).",
         "level_note": "Trusted: gojq (the reference projection runs it directly), the reference in the harness. Filters outside the listed grammar and objects outside the pool are not covered.",
         "rule": "product enumeration filters x event sequences x type subsets x keepFull; non-trivial = sequence of >= 2 deliveries; distinct = distinct (filter, subset, trigger list)",
         "parts": [
@@ -131,7 +131,7 @@ CHECKS = {
         "engine": "E1",
         "technique": "stateless model checking: deviation-bounded DFS over all interleavings of the instrumented informer/monitor code under a controlled scheduler",
         "level_text": "Level 1: the real kubeEventsManager, monitor and resourceInformer sources are compiled with their lock, channel, goroutine-start operations and unsynchronised flags as scheduling points and run under a hand-written controlled scheduler; client-go informers are replaced by a hub with one FIFO and one delivery thread per handler. For every scenario (6 histories of <=3 changes over 2 objects / 2 namespaces x {no filter, object-valued jqFilter, full objects dropped, Modified only} x {0,1} extra snapshot readers, namespace.labelSelector with a namespace appearing after start, slow consumer) the environment timing (deliveries before the Synchronization view and before the unlock, reader phase) is enumerated and ALL interleavings of informer delivery, Synchronization (Snapshot; hook; EnableKubeEventCb), extra readers and the event-channel consumer with at most 2 (quick; 1 for the larger scenarios) / 3 (thorough) pre-emptions are executed; each is checked with the suffix oracle against the environment's own mutation log (no early event, per-object order, no loss). Level 2: the real ShellOperator.Start() with a plain binding, a binding in its own queue and two bindings of one group, the Synchronization execution failing 0..1 (2) times, changes arriving while it fails and afterwards (each later change at once or after the operator went quiet), all schedules within 1 (2) deviations of the default scheduler; oracle on what the hook is given: no Event before the successful Synchronization, versions in order, the hook's view ends at the cluster's final state (for a group: the last Group execution shows the final state of every binding).",
-        "level_note": "Trusted: the hub as a model of client-go's per-handler ordered delivery (its event sequences are compared with real client-go informers on the fake cluster by the conformance part of C02), the fake cluster, the scheduler (vrt), the process stand-in at level 2. Scheduling granularity: lock acquisition, channel ops, goroutine start, listed racy fields; sequential consistency assumed. Bounded: histories, configurations and the bounds are listed in the evidence.",
+        "level_note": "Trusted: the hub as a model of client-go's per-handler ordered delivery (its event sequences are compared with real client-go informers on the fake cluster by the conformance part of C02), the fake cluster, the scheduler (vrt), the process stand-in at level 2. Scheduling granularity: lock acquisition, channel ops, goroutine start, listed racy fields (cross-checked by part kemrace, a free-running race-detector pass with real client-go informers that adds nothing to the counters); sequential consistency assumed. Level 2 also holds one execution at a gate while the next change arrives. Bounded: histories, configurations and the bounds are listed in the evidence.",
         "rule": "DFS over choice sequences (thread to run at each scheduling point) with at most N pre-emptions; non-trivial = execution with >= 1 pre-emption; distinct = distinct (Synchronization view, delivered event sequence) per scenario",
         "assumptions": ["informer hub models client-go: per-handler FIFO, initial LIST enqueued at registration, arbitrary lag"],
         "parts": [
@@ -148,7 +148,7 @@ CHECKS = {
         "engine": "E1",
         "technique": "stateless model checking of the assembled operator under a controlled scheduler (deviation-bounded DFS), virtual clock",
         "level_text": "The real ShellOperator.Start() (task queues and their worker loops, queue set, events handler, hook and bindings controllers, schedule manager, kube events manager) runs under the controlled scheduler with a virtual clock; hook processes, informers, HTTP server and cron's goroutine are behind seams. Two hooks with kubernetes and schedule bindings in `main` and `q2`, an environment thread producing 2 ticks and 2 changes per namespace, three variants (no stall, a q2 hook that never returns, a main hook that fails forever). After start-up (run on the default schedule; C06 explores it) ALL schedules with at most 2 (quick) / 3 (thorough) deviations from the deterministic default scheduler (delay bounding: keep the running thread, else lowest thread id; every other choice, pre-emptive or not, costs one) are executed. Oracle per execution: handler intervals of one queue never overlap, the task handed over is the queue's head, every context runs in the queue its binding names, per-binding event order, and the queue that is not stalled executes all its tasks.",
-        "level_note": "Trusted: scheduler (vrt), hub and process stand-in as environment models, fake cluster. Scheduling points: lock/channel/select/timer operations and listed racy fields; sequential consistency.",
+        "level_note": "Trusted: scheduler (vrt), hub and process stand-in as environment models, fake cluster. Scheduling points: lock/channel/select/timer operations (locks of every file of the operator's packages) and listed racy fields; sequential consistency. Part oprace is a free-running race-detector pass over the same scenario with real goroutines and real client-go informers: it cross-checks that no unsynchronised access is missing from the list (an unlisted one is reported as a cap, never as a violation) and adds nothing to the counters.",
         "rule": "DFS over thread choices at scheduling points with at most N pre-emptions per stall variant; non-trivial = execution with >= 1 pre-emption; distinct = distinct sequence of (hook, queue, contexts) executions",
         "parts": [
             part("c03", "pkg/shell-operator", "TestVerifC03", ["zz_verif_c03_test.go", "zz_verif_fixture_test.go"], shards={"quick": 12, "thorough": 16},
@@ -161,7 +161,7 @@ CHECKS = {
         "level": "model_checking",
         "engine": "E1",
         "technique": "stateless model checking of the assembled operator under a controlled scheduler: shutdown injected at every enumerated point, delay-bounded DFS, virtual clock",
-        "level_text": "Scenario of C03 plus a thread running the operator's own Shutdown() sequence. The moment of the shutdown request is enumerated (after k = 0..12 quick / 0..24 thorough task-handling and hook-run events: queues empty, in a back-off delay after failures, in the middle of a handler, with ticks and events still arriving), and around each such point all schedules with at most 1 (quick) / 2 (thorough) deviations from the default scheduler are executed. Oracle: after the stop request a queue starts at most the task it had already picked (none if its handler was running), each worker reaches its final state at the virtual instant of max(stop request, return of its current handler) i.e. without any timer firing, Shutdown returns, and no hook is executed once all workers have stopped.",
+        "level_text": "Scenario of C03 plus a thread running the operator's own Shutdown() sequence. The moment of the shutdown request is enumerated (after k = 0..12 quick / 0..24 thorough task-handling and hook-run events: queues empty, in a back-off delay after failures, in the middle of a handler, with ticks and events still arriving), and around each such point all schedules with at most 1 (quick) / 2 (thorough) deviations from the default scheduler are executed. Oracle: after the stop request a queue starts at most the task it had already picked (none if its handler was running), each worker reaches its final state at the virtual instant of max(stop request, return of its current handler) i.e. without any timer firing, Shutdown returns, and no hook is executed once all workers have stopped. Part b: the real TaskQueue alone under the scheduler: six handler results (every kind of delay between two tasks: DelayOnRepeat, DelayBeforeNextTask shorter / longer than the wait loop's check interval, the failure back-off, an empty queue) x Stop() at six virtual offsets strictly inside that delay, inside a running handler, on an empty queue, delay bound 1 / 2: no handler call begins after the request and the worker reaches its final state at the virtual instant of the request (of its running handler's return).",
         "level_note": "Trusted: scheduler, hub, process stand-in, virtual clock. The queue's status string is read only to observe when a worker has terminated.",
         "rule": "for each (mode, stop point k): DFS over thread choices with at most N deviations; non-trivial = k > 0 or a deviation taken; distinct = distinct (worker stop times, execution list)",
         "parts": [
@@ -187,7 +187,7 @@ CHECKS = {
         "level": "model_checking",
         "engine": "E2+E1",
         "technique": "exhaustive enumeration of ORDER assignments on the real hook manager; stateless model checking (delay-bounded) of operator start-up over generated hook sets and start-up failures",
-        "level_text": "Part a: GetHooksInOrder(OnStartup) on a real Manager for every assignment of ORDER in {1,2,3} to 1..9 (10) hooks and of ORDER in {1,2} to 13,14 (..17) hooks; oracle: ascending ORDER, ties in path order. Part b: the real Start() on generated hook sets (1-3 hooks from a menu mixing onStartup, kubernetes bindings with and without group, executeHookOnSynchronization false, a v0 hook, schedules, a named queue) with an environment firing ticks and cluster changes from the very first moment and with the j-th start-up execution failing k in {0,1,2} times; all schedules within the delay bound; oracle on the execution log: onStartup hooks exactly once in (ORDER, path) order before anything else, then per hook in path order each binding's Synchronization once (one execution per group, none when switched off or v0) in main, before any Event of that binding and before any Schedule task of that hook.",
+        "level_text": "Part a: GetHooksInOrder(OnStartup) on a real Manager for every assignment of ORDER in {1,2,3} to 1..9 (10) hooks and of ORDER in {1,2} to 13,14 (..17) hooks; oracle: ascending ORDER, ties in path order. Part b: the real Start() on generated hook sets (1-3 hooks from a menu mixing onStartup, kubernetes bindings with and without group, executeHookOnSynchronization false, a v0 hook, schedules, a named queue; plus a group whose first / last binding has executeHookOnSynchronization false, two ungrouped kubernetes bindings, two ungrouped bindings with the second in a named queue, and sets in which the first LIST for the second binding fails so that enabling the bindings is retried) with an environment firing ticks and cluster changes from the very first moment and with the j-th start-up execution failing k in {0,1,2} times; all schedules within the delay bound; oracle on the execution log: onStartup hooks exactly once in (ORDER, path) order before anything else, then per hook in path order each binding's Synchronization once (one execution per group, none when switched off or v0) in main, before any Event of that binding and before any Schedule task of that hook.",
         "level_note": "Trusted: scheduler, hub, process stand-in, fake cluster, reference in the harness.",
         "rule": "product enumeration (part a); hook sets x failure injection x DFS over schedules within the bound (part b); non-trivial = ties in ORDER / a failure or deviation; distinct = distinct order / execution log",
         "parts": [
@@ -200,7 +200,7 @@ CHECKS = {
         "level": "model_checking",
         "engine": "E1",
         "technique": "exhaustive enumeration of arrival patterns x (interval, burst) on the assembled operator with the rate limiter compiled against the virtual clock",
-        "level_text": "golang.org/x/time/rate is compiled (by overlay) against the virtual-time shim, so the limiter's clock reads and timer waits are owned by the scheduler. For (I,B) in {(1s,1),(2s,3),(500ms,2)} and for a hook without settings, every arrival pattern of up to 4 (quick) / 5 (thorough) changes with gaps from {0, I/2, I, 2I} and hook durations {0, I} is run through the real operator (Synchronization run included); oracle on the virtual start times of the hook's executions: for all i<j, j-i+1 <= B + ceil((t_j-t_i)/I); a hook without settings in another queue starts when its event arrives; without settings a hook is delayed only by its own previous run.",
+        "level_text": "golang.org/x/time/rate is compiled (by overlay) against the virtual-time shim, so the limiter's clock reads and timer waits are owned by the scheduler. For (I,B) in {(1s,1),(2s,3),(500ms,2)} and for a hook without settings, every arrival pattern of up to 4 (quick) / 5 (thorough) changes with gaps from {0, I/2, I, 2I} and hook durations {0, I} is run through the real operator (Synchronization run included), also for a hook with three kubernetes bindings (three Synchronization executions back to back) and a hook whose bindings use two queues; oracle on the virtual start times of the hook's executions: for all i<j, j-i+1 <= B + ceil((t_j-t_i)/I); a hook without settings in another queue starts when its event arrives; without settings a hook is delayed only by its own previous run.",
         "level_note": "Trusted: virtual clock and scheduler; x/time/rate itself is the instrumented real source from the module cache. Default schedule only (the property quantifies over arrival patterns; interleavings of the queue machinery are explored by C03/C17).",
         "rule": "product enumeration of (I,B) x gap sequences x hook duration; non-trivial = >= 2 arrivals; distinct = distinct start-time sequence",
         "parts": [
@@ -215,7 +215,7 @@ CHECKS = {
         "level": "model_checking",
         "engine": "E2",
         "technique": "exhaustive enumeration of small directory trees on a real file system vs the discovery rule; enumeration of hook layouts x failing --config choice through the real Manager.Init with real processes",
-        "level_text": "Part a: every tree of one entry (path of up to 3 components over directories {sub, lib, .hid, x.d} x 8 file names x 5 permission modes) under hooks directories named hooks / lib / .hooks, every pair from a 50-entry pool and (thorough) every triple from a 30-entry pool is created on tmpfs; RecursiveGetExecutablePaths must return exactly the files the statement's rule selects. Part b: Manager.Init on 9 hook layouts (name collisions across directories, directory/file name prefixes whose walk order differs from lexical order, blanks, case) with real /bin/sh hooks that log each --config call, plus lib/, hidden, non-executable and excluded-extension noise; for the healthy layout and for every choice of one hook whose --config exits 1 or prints an invalid configuration: names = relative paths in lexical order, one --config call per hook, none for non-hooks, failure names the hook.",
+        "level_text": "Part a: every tree of one entry (path of up to 3 components over directories {sub, lib, .hid, x.d} x 8 file names x 5 permission modes) under hooks directories named hooks / lib / .hooks, every pair from a 50-entry pool and (thorough) every triple from a 30-entry pool is created on tmpfs; RecursiveGetExecutablePaths must return exactly the files the statement's rule selects. Part b: Manager.Init on 9 hook layouts (name collisions across directories, directory/file name prefixes whose walk order differs from lexical order, blanks, case) with real /bin/sh hooks that log each --config call, plus lib/, hidden, non-executable and excluded-extension noise; for the healthy layout and for every choice of one hook whose --config fails in one of six ways (silent exit 1, exit 127 with stderr, exit 2 with stdout and stderr, invalid configuration, invalid with stderr, neither JSON nor YAML): names = relative paths in lexical order, one --config call per hook, none for non-hooks, failure names the hook.",
         "level_note": "Trusted: the file system (tmpfs), /bin/sh. Runs as root, so permission bits are not enforced on execution.",
         "rule": "enumeration of entry sets / (layout, failing hook, kind); non-trivial = nested path or more than one entry; distinct = distinct discovered set / loaded order",
         "parts": [
@@ -227,7 +227,7 @@ CHECKS = {
         "level": "model_checking",
         "engine": "E2",
         "technique": "exhaustive enumeration of (context type, handler subset, binding name, array shape, failing position) on the real bash framework with real bash and jq",
-        "level_text": "Generated hook scripts source the working tree's shell_lib.sh and frameworks/shell/*.sh and define a chosen subset of handler functions that log their name and BINDING_CONTEXT_CURRENT_INDEX and return a scripted status. Enumerated: 10 context types x every subset of that type's candidate handler names plus __main__ x binding names {pods, my-binding, 'Monitor pods in cache tier'} with the selected handler succeeding or failing; arrays of 2-3 contexts of different types with a failing or missing handler at each position; --config. Oracle: exactly the first defined candidate (most to least specific, then __main__) is invoked per context with that context's index, the run stops with a non-zero status at the first failing or unserved context and succeeds otherwise.",
+        "level_text": "Generated hook scripts source the working tree's shell_lib.sh and frameworks/shell/*.sh and define a chosen subset of handler functions that log their name and BINDING_CONTEXT_CURRENT_INDEX and return a scripted status. Enumerated: 12 context types (two without a type field, as configVersion v0 hooks get them) x every subset of that type's candidate handler names plus __main__ x binding names {pods, my-binding, 'Monitor pods in cache tier'} with the selected handler succeeding, failing with an explicit status or failing in strict mode (a command in its middle fails); arrays of 2-3 contexts of different types with a failing, strict-failing or missing handler at each position; --config. Oracle: exactly the first defined candidate (most to least specific, then __main__) is invoked per context with that context's index, the run stops with a non-zero status at the first failing or unserved context and succeeds otherwise.",
         "level_note": "Trusted: bash and jq of the image. The candidate lists in the reference are taken from the framework source, which is the only place they are documented.",
         "rule": "product enumeration; non-trivial = more than one handler defined or more than one context; distinct = distinct (invoked handlers, success)",
         "parts": [
@@ -238,7 +238,7 @@ CHECKS = {
         "level": "model_checking",
         "engine": "E2",
         "technique": "exhaustive enumeration of operation-document streams x encodings x initial cluster states on the real parser and patcher vs a reference interpreter",
-        "level_text": "Every stream of 1-2 documents and a spread (thorough: all) of 3-document streams over 11-12 valid operations (Create / CreateIfNotExists / CreateOrUpdate, delete variants, MergePatch / JSONPatch / JQPatch, objects and patches inline and as strings, integer / float / bool fields, ignoreMissingObject) and 7 single-fault invalid documents, written as a JSON stream and as a YAML stream, goes through the real ParseOperations and ObjectPatcher.ExecuteOperations on a fake cluster with the object absent or present. Oracle: an invalid document anywhere gives an error and an untouched cluster; otherwise the final cluster equals a reference interpreter applying the operations once each in order, an apply-time error is reported exactly when the reference predicts one, nothing panics, and both encodings decode to deep-equal operation specs (numeric types included).",
+        "level_text": "Every stream of 1-2 documents and a spread (thorough: all) of 3-document streams over 11-12 valid operations (Create / CreateIfNotExists / CreateOrUpdate, delete variants, MergePatch / JSONPatch / JQPatch, objects and patches inline and as strings, integer / float / bool fields, ignoreMissingObject) and 9 invalid documents (7 single-fault ones and a stray closing brace / bracket), written as a JSON stream and as a YAML stream, goes through the real ParseOperations and ObjectPatcher.ExecuteOperations on a fake cluster with the object absent or present. Oracle: an invalid document anywhere gives an error and an untouched cluster; otherwise the final cluster equals a reference interpreter applying the operations once each in order, an apply-time error is reported exactly when the reference predicts one, nothing panics, and both encodings decode to deep-equal operation specs (numeric types included).",
         "level_note": "Trusted: the fake dynamic client as cluster, gojq, the reference interpreter. 'Invalid' is limited to the unmistakable faults of docs/src/KUBERNETES.md. Foreground Delete (polls with a real 1 s interval) only in the thorough tier; subresource is not exercised (the fake client ignores it).",
         "rule": "product enumeration of document streams x {absent, present}; non-trivial = more than one document; distinct = distinct (final cluster, error)",
         "parts": [
@@ -249,7 +249,7 @@ CHECKS = {
         "level": "model_checking",
         "engine": "E2",
         "technique": "exhaustive enumeration of (binding set, request path, body, hook outcome) through the real admission handler and operator event handler",
-        "level_text": "The operator's own initValidatingWebhookManager runs (TLS server start behind a no-op seam); requests are served by the real chi router, handler and admission event handler (task creation, taskHandler, Hook.Run with the stand-in process writing the real response file). Enumerated: 3 binding sets over two hooks (validating + mutating, names colliding after URL sanitising) x every registered path, unknown webhook, unknown configuration and malformed paths x {valid review, no request, garbage} x 16 hook outcomes (exit 0/1 x empty, garbage, wrong type, allow, allow+warnings, deny+message, deny, allow+patch). Oracle: allowed=true only when the addressed hook ran, exited 0 and wrote a valid allow; UID echoed; warnings, denial message and patch (with patchType JSONPatch iff patch) relayed; the hook and binding that ran registered that path.",
+        "level_text": "The operator's own initValidatingWebhookManager runs (TLS server start behind a no-op seam); requests are served by the real chi router, handler and admission event handler (task creation, taskHandler, Hook.Run with the stand-in process writing the real response file). Enumerated: 3 binding sets over two hooks (validating + mutating, names colliding after URL sanitising) x every registered path, unknown webhook, unknown configuration and malformed paths x {valid review, no request, garbage} x 20 hook outcomes (exit 0/1 x empty, garbage, wrong type, allow, allow+warnings, deny+message, deny, deny+message+warnings, allow+patch, allow+patch+warnings). Oracle: allowed=true only when the addressed hook ran, exited 0 and wrote a valid allow; UID echoed; warnings, denial message and patch (with patchType JSONPatch iff patch) relayed; the hook and binding that ran registered that path.",
         "level_note": "Trusted: net/http/httptest, chi, the stand-in (it writes the scripted bytes into the real response file, parsing stays real). Registration of webhook configurations in the cluster is outside the property.",
         "rule": "product enumeration; non-trivial = anything but a plain valid allow; distinct = distinct answer",
         "parts": [
@@ -261,7 +261,7 @@ CHECKS = {
         "level": "model_checking",
         "engine": "E2+E1",
         "technique": "exhaustive enumeration of (exit code x contents of the four output files) with real processes; stateless model checking (pre-emption-bounded) of two concurrent executions of one hook",
-        "level_text": "Part a: a real /bin/sh hook, executed by the real executor through the operator's taskHandler, dumps its cwd, the six environment variables, the state of the prepared files and the binding-context file, writes scripted contents and exits with a scripted code: exit in {0,1,2} x each of metrics / patch / admission / conversion file in {untouched, valid, truncated, wrong type} (768 cases, 1-3 contexts). Oracle: cwd = hook directory, context file = the task's contexts, output files exist and are empty, file names never reused, non-zero exit or any malformed output fails the task, valid outputs take effect (object in the fake cluster, metric in the hook registry, responses on the task), temp dir empty afterwards in every case, one execution per task. Part b: two executions of the same hook from two threads with scheduling points at every os.* call of hook.go and inside the stand-in process, all interleavings within 2 (quick) / 3 (thorough) pre-emptions, one variant with a failing first execution: each execution reads back its own response, results are right, temp dir empty at the end.",
+        "level_text": "Part a: a real /bin/sh hook, executed by the real executor through the operator's taskHandler, dumps its cwd, the six environment variables, the state of the prepared files and the binding-context file, writes scripted contents and exits with a scripted code: exit in {0,1,2,255, killed by SIGKILL, killed by SIGTERM} x each of metrics / patch / admission / conversion file in {untouched, valid, truncated, wrong type} (1536 cases, 1-3 contexts). Oracle: cwd = hook directory, context file = the task's contexts, output files exist and are empty, file names never reused, non-zero exit or any malformed output fails the task, valid outputs take effect (object in the fake cluster, metric in the hook registry, responses on the task), temp dir empty afterwards in every case, one execution per task. Part b: two executions of the same hook from two threads with scheduling points at every os.* call of hook.go and inside the stand-in process, all interleavings within 2 (quick) / 3 (thorough) pre-emptions, one variant with a failing first execution: each execution reads back its own response, results are right, temp dir empty at the end.",
         "level_note": "Trusted: /bin/sh, the fake cluster, the stand-in process in part b. Failures to create temp files (disk full) are outside the property and not injected.",
         "rule": "product enumeration (part a); DFS over interleavings within the bound (part b); non-trivial = any non-default file content or exit / a pre-emption; distinct = distinct (result, inputs) / results",
         "parts": [
@@ -275,7 +275,7 @@ CHECKS = {
         "level": "model_checking",
         "engine": "E2",
         "technique": "exhaustive enumeration of binding option vectors through the real end-to-end path (informer -> controllers -> UpdateSnapshots -> JSON file read by the hook) vs a reference renderer",
-        "level_text": "For each of 48 option vectors (jqFilter x keepFullObjectsInMemory x includeSnapshotsFrom {none, itself, another binding} x group x snapshots included by the schedule / validating / mutating / conversion bindings) a hook is loaded into the real operator (scheduler-controlled, default schedule, hub and process stand-in) and start-up, Added / Modified / Deleted changes, a tick, two admission requests and a conversion request are played; every binding context read from the real BINDING_CONTEXT_PATH file (onStartup, Synchronization, Event x3, Group, Schedule, Validating, Mutating, Conversion) is checked against a reference renderer written from docs/src/HOOKS.md: required / forbidden keys per type, filterResult equal to the jq result of that very object, object present iff full objects are kept, snapshots present iff the binding includes snapshots and with exactly the documented keys; every kind of context must have been delivered.",
+        "level_text": "For each of 48 option vectors (jqFilter x keepFullObjectsInMemory x includeSnapshotsFrom {none, itself, another binding} x group x snapshots included by the schedule / validating / mutating / conversion bindings) a hook is loaded into the real operator (scheduler-controlled, default schedule, hub and process stand-in) and webhook requests before Start() (bindings not enabled yet), start-up, Added / Modified / Deleted changes (the Deleted notification carrying a final state nobody has seen), a tick, two admission requests and a conversion request are played; every binding context read from the real BINDING_CONTEXT_PATH file (onStartup, Synchronization, Event x3, Group, Schedule, Validating, Mutating, Conversion) is checked against a reference renderer written from docs/src/HOOKS.md: required / forbidden keys per type, filterResult equal to the jq result of that very object, object present iff full objects are kept, snapshots present iff the binding includes snapshots, with exactly the documented keys and every one of them a list; every kind of context must have been delivered.",
         "level_note": "Trusted: hub and stand-in, gojq for the reference filterResult, the reference renderer. Snapshot contents are C02's subject; v0 rendering is exercised by C06 (v0 hook in the start-up sets).",
         "rule": "product enumeration of option vectors, one scripted event history each; non-trivial = any non-default option; distinct = distinct option vector",
         "parts": [
@@ -287,7 +287,7 @@ CHECKS = {
         "level": "model_checking",
         "engine": "E2+E1",
         "technique": "exhaustive enumeration of cluster histories x monitor configurations on the real monitor/informer code vs reference sets (plus restart differential); stateless model checking of the start-up window and of concurrent snapshot reads inside one execution",
-        "level_text": "Part a: every history of up to 3 (quick) / 4 (thorough) steps over 14 operations (create / modify / delete of objects in three namespaces, a labelled namespace deleted with its objects, a labelled namespace appearing) with synchronous delivery, for 12 monitor configurations (all namespaces | namespace.nameSelector | namespace.labelSelector x matchNames x jqFilter x keepFullObjectsInMemory): after every step the real Snapshot() equals the reference computed from the cluster (same elements once each, sorted by namespace/name, projection and object presence per item) and equals the snapshot of a fresh monitor on the same cluster (restart). Part b: environment changes interleaved by the scheduler with AddMonitor's LIST and StartMonitor's LIST (5 histories, bound 1/2): once quiet the snapshot equals the cluster. Part c: at operator level, hook executions whose contexts mention one binding several times (Synchronization objects, self-include, group, includeSnapshotsFrom from other bindings and queues) with informer deliveries interleaved: inside one execution every occurrence of a binding's snapshot is identical and the keys of snapshots are exactly the declared ones.",
+        "level_text": "Part a: every history of up to 3 (quick) / 4 (thorough) steps over 16 operations (create / modify / delete of objects in three namespaces, a change outside the binding's projection, a labelled namespace deleted with its objects, a labelled namespace appearing) with synchronous delivery, for 12 monitor configurations (all namespaces | namespace.nameSelector | namespace.labelSelector x matchNames x jqFilter x keepFullObjectsInMemory): after every step the real Snapshot() equals the reference computed from the cluster (same elements once each, sorted by namespace/name, projection, object presence and - when full objects are kept - the object's field outside the projection per item) and equals the snapshot of a fresh monitor on the same cluster (restart). Part b: environment changes interleaved by the scheduler with AddMonitor's LIST and StartMonitor's LIST (5 histories, bound 1/2): once quiet the snapshot equals the cluster. Part c: at operator level, hook executions whose contexts mention one binding several times (Synchronization objects, self-include, group, includeSnapshotsFrom from other bindings and queues) with informer deliveries interleaved: inside one execution every occurrence of a binding's snapshot is identical and the keys of snapshots are exactly the declared ones.",
         "level_note": "Trusted: hub (per-handler FIFO), fake cluster with a list reactor honouring metadata.name, reference sets. Configurations whose documented meaning is ambiguous are left out (nameSelector and labelSelector on one binding; two bindings with one name). Part hubconf: the informer hub used by every scheduler-controlled check is compared with real client-go shared informers started by the repository's own FactoryStore.Start / namespaceInformer.start: all histories up to depth 3 (quick) / 4 (thorough) over 12 operations x every registration moment of 1-2 handlers, identical per-handler callback sequences step by step (selector configurations: initial LIST only, the fake WATCH does not filter).",
         "rule": "product enumeration of histories x configurations (part a); DFS over interleavings within the bound (parts b, c); non-trivial = history of >= 2 steps / a deviation; distinct = distinct (configuration, snapshot)",
         "parts": [
